@@ -275,9 +275,9 @@ func invertEndian(i uint8) uint8 {
 
 // CheckBitRangeLittleEndian checks that a little-endian bit range fits in the data.
 func CheckBitRangeLittleEndian(frameLength, rangeStart, rangeLength uint8) error {
-	lsbIndex := rangeStart
-	msbIndex := rangeStart + rangeLength - 1
-	upperBound := frameLength * 8
+	lsbIndex := int(rangeStart)
+	msbIndex := int(rangeStart) + int(rangeLength) - 1
+	upperBound := int(frameLength) * 8
 	if msbIndex >= upperBound {
 		return fmt.Errorf("bit range out of bounds [0, %v): [%v, %v]", upperBound, lsbIndex, msbIndex)
 	}
@@ -286,13 +286,16 @@ func CheckBitRangeLittleEndian(frameLength, rangeStart, rangeLength uint8) error
 
 // CheckBitRangeBigEndian checks that a big-endian bit range fits in the data.
 func CheckBitRangeBigEndian(frameLength, rangeStart, rangeLength uint8) error {
-	upperBound := frameLength * 8
-	if rangeStart >= upperBound {
+	upperBound := int(frameLength) * 8
+	if int(rangeStart) >= upperBound || rangeStart > 63 {
 		return fmt.Errorf("bit range starts out of bounds [0, %v): %v", upperBound, rangeStart)
 	}
-	msbIndex := invertEndian(rangeStart)
-	lsbIndex := msbIndex - rangeLength + 1
-	end := invertEndian(lsbIndex)
+	msbIndex := int(invertEndian(rangeStart))
+	lsbIndex := msbIndex - int(rangeLength) + 1
+	if lsbIndex < 0 {
+		return fmt.Errorf("bit range ends out of bounds [0, %v): length %v", upperBound, rangeLength)
+	}
+	end := int(invertEndian(uint8(lsbIndex)))
 	if end >= upperBound {
 		return fmt.Errorf("bit range ends out of bounds [0, %v): %v", upperBound, end)
 	}
@@ -301,7 +304,10 @@ func CheckBitRangeBigEndian(frameLength, rangeStart, rangeLength uint8) error {
 
 // CheckValue checks that a value fits in a number of bits.
 func CheckValue(value uint64, bits uint8) error {
-	upperBound := uint64(1 << bits)
+	if bits >= 64 {
+		return nil
+	}
+	upperBound := uint64(1) << bits
 	if value >= upperBound {
 		return fmt.Errorf("value out of bounds [0, %v): %v", upperBound, value)
 	}
